@@ -181,7 +181,7 @@ ClassOf(cp) == CHOOSE c \in CodePointClasses : InClass(cp, c)
 (* Every predicate above is a finite union of ranges, so it is constant        *)
 (* between two neighbouring cut points; evaluating at every cut point and at   *)
 (* its predecessor is therefore as good as evaluating at all 1 114 112 code    *)
-(* points (CharTableExhaustive does the latter, thorough tier).                *)
+(* points (CharTableExhaustiveInv does the latter, thorough tier).             *)
 AllRanges == UNION {ClassRanges(c) : c \in CodePointClasses}
 CutPoints == LET raw == XmlBoundaries \cup {r[1] : r \in AllRanges} \cup {r[2] + 1 : r \in AllRanges}
              IN {cp \in raw \cup {c - 1 : c \in raw \ {0}} : cp <= MaxCp}
@@ -191,16 +191,19 @@ CharTableAt(S) ==
   /\ \A cp \in S : \A c \in CodePointClasses : \A r \in ClassRanges(c) :           \* no class straddles
         (r[1] <= cp /\ cp <= r[2]) => (XmlChar(cp) <=> XmlChar(r[1]))               \* a boundary of Char
 CharTableOK == CharTableAt(CutPoints)
-CharTableExhaustive == CharTableAt(0..MaxCp)
 
 (* what XML 1.0 allows: as the character itself / as a numeric reference.      *)
 (* A class is legal iff its code points are (by CharTableOK all or none are).  *)
 LegalClasses == {c \in CharClasses : \A r \in ClassRanges(c) : XmlChar(r[1]) /\ XmlChar(r[2])}
 LegalChar(c) == c \in LegalClasses
 IllegalClasses == CharClasses \ LegalClasses
-(* XmlReport_chars.cfg: one state, the whole code space *)
+(* XmlReport_chars.cfg: one state, the whole code space.  (Written over a      *)
+(* variable on purpose: TLC evaluates every constant-level definition before   *)
+(* the first state, in every configuration.)                                   *)
 CharSpec == Init /\ [][UNCHANGED vars]_vars
-CharTableExhaustiveInv == CharTableExhaustive /\ \A cp \in 0..MaxCp : XmlChar(cp) <=> LegalChar(ClassOf(cp))
+CharTableExhaustiveInv == pc = "find" =>
+   /\ CharTableAt(0..MaxCp)
+   /\ \A cp \in 0..MaxCp : XmlChar(cp) <=> LegalChar(ClassOf(cp))
 Render(c) ==
   IF "RawSerializer" \in Deviations
   THEN CASE c \in {"plain", "c0", "vt_ff", "nul", "newline", "cdataend"} -> "verbatim"
